@@ -66,11 +66,17 @@ def modifyAt {β : Type} (f : β → β) : Nat → List β → List β
   | 0, x :: xs => f x :: xs
   | n + 1, x :: xs => x :: modifyAt f n xs
 
-/-- `cast_metadata`: `None` stays `None`; a tuple whose items are all `None` (in particular the empty
-    tuple) becomes `None`; otherwise every item becomes a default-None mapping (`None` → empty). -/
+/-- `cast_metadata`: `None` stays `None`; a tuple whose items are all `None` or empty (in particular
+    the empty tuple) becomes `None`; otherwise every item becomes a default-None mapping (`None` → empty). -/
 def castMd : Option (List (Option Md)) → Option (List Md)
   | none => none
-  | some tup => if tup.all (·.isNone) then none else some (tup.map (·.getD []))
+  | some tup => if tup.all (fun x => (x.getD []).isEmpty) then none else some (tup.map (·.getD []))
+
+/-- metadata that carries information: what a real table holds on an axis (never a tuple of empty entries) -/
+def mdInformative (md : Option (List Md)) : Bool :=
+  match md with
+  | none => true
+  | some mds => !(mds.all (·.isEmpty))
 
 /-- one iteration of `for id_, md_entry in md.items()` when the axis already has metadata -/
 def updStep (ids : List Id) (mds : List Md) (ie : Id × Md) : List Md :=
